@@ -99,6 +99,8 @@ def script_of(spec, cap):
         script.append(["eof"] if io["end"] == "eof" else ["err", io["end"]])
     return script, stream
 
+_TABLES = _NX = None                     # unpacker tables per configuration (filled once per process by C02._configs)
+CFGS = ("default", "nicira")
 CAP = {"ctl": 2048, "sw": 8192}          # Connection.read recv(2048); RecocoIOLoop._BUF_SIZE = 8192
 
 def segment(stream, cuts, cap=2048):
@@ -149,6 +151,32 @@ class C02(Check):
         from pox.lib.ioworker import IOWorker
         import pox.lib.ioworker as iow
         self.of_01, self.of, self.OFConnection, self.IOWorker, self.iow = of_01, of, OFConnection, IOWorker, iow
+        self._configs()
+
+    # -- supported non-default configurations that change the decode path: a component may replace entries of the table of
+    #    unpackers a connection uses (openflow.nicira does, for OFPT_VENDOR, on the controller side) or register message
+    #    classes the switch-side table is built from.  The tables are taken from FRESH connection objects of either side
+    #    before and after the component is launched (never from the component's private names); a case names its
+    #    configuration in case["cfg"], every connection of the case gets that configuration's table.
+    def _configs(self):
+        global _TABLES, _NX
+        if _TABLES is None:
+            def snap():
+                c = self.of_01.Connection(ScriptSock())
+                w = self.iow.RecocoIOLoop().new_worker(ScriptSock())
+                return {"ctl": list(c.unpackers), "sw": list(self.OFConnection(w).unpackers)}
+            t = {"default": snap()}
+            import pox.openflow.nicira as nx, pox.core, contextlib, io
+            if not pox.core.core.hasComponent("NX"):
+                with contextlib.redirect_stdout(io.StringIO()): nx.launch()
+            t["nicira"] = snap()
+            _TABLES, _NX = t, nx
+        self.tables, self.nx = _TABLES, _NX
+        from pox.datapaths.nx_switch import NXSoftwareSwitch
+        self.NXSoftwareSwitch = NXSoftwareSwitch
+
+    def _table(self, case, side):
+        return self.tables[case.get("cfg") or "default"][side]
 
     # -- generators
     def _stream(self, rng, n, small=True):
